@@ -774,8 +774,8 @@ class C14(HistProp):
             sg = StoreGen(g, t, v)
             out.append(show(['store', t, v] + sg.history(r.choice([6, 15, 30]), 0.35)))
         # construction: every spelling of the constructor arguments, valid and invalid values
-        for _ in range(self.n(tier) * 2):
-            if g.rng.random() < 0.25:
+        for _ in range(self.n(tier) * 3):
+            if g.rng.random() < 0.35:
                 # byte-like sequences have extra constructor spellings (bytes, hex string)
                 t = g.rng.choice([['list', 'u8', g.bound(1, 129)], ['vec', 'u8', g.bound(1, 129)], ['Bv', g.bound(1, 129)], ['Bl', g.bound(1, 129)]])
             else:
@@ -1972,7 +1972,7 @@ class StoreProp(Prop):
             sg = StoreGen(g, t, v)
             ops = sg.history(g.rng.choice([6, 15, 40] if tier == 'quick' else [6, 15, 40, 100]), self.p_bad, 0.06)
             # one in four histories runs LAZILY: nothing is hashed or read before the end
-            out.append(show(['storel' if k % 4 == 3 else 'store', t, v] + ops))
+            out.append(show(['storel' if k % 3 == 2 else 'store', t, v] + ops))
         return out
 
     def shrink_candidates(self, case):
@@ -2289,6 +2289,21 @@ class C17(Prop):
             ops = nested_write_ops(g, t, v, r.choice([2, 4, 8]), observe)
             if ops:
                 out.append(show(['partial', t, v, pos] + ops + [['read'], ['root']]))
+        # mutations through the value view of a union whose value has a summary elsewhere
+        for _ in range(self.n(tier) // 8):
+            opt = r.choice([['list', 'u64', 64], ['cont', 'u64', ['list', 'u8', 40], 'u16', ['Bv', 48]], ['bl', 1024], ['vec', 'u16', 64]])
+            u = ['union'] + (['none'] if r.random() < 0.5 else []) + [opt]
+            uv = ['u', len(u) - 2, g.val(opt, 40) if r.random() < 0.5 else (g.max_val(opt) or g.val(opt, 40))]
+            t, v = r.choice([(u, uv), (['cont', 'u8', u], ['s', '1', uv]), (['list', u, 3], ['s', uv, uv])])
+            cand = [x for x in positions(t, v) if x > 1]
+            base = 2 if t[0] == 'union' else None
+            if base:
+                cand += [base * 2, base * 2 + 1, base * 4 + r.randrange(4), base * 8 + r.randrange(8)]
+            pos = ['pos'] + [r.choice(cand) if cand else r.randint(2, 31) for _ in range(r.choice([1, 1, 2]))]
+            observe = lambda: r.choice([['root'], ['read'], ['bytes']])
+            ops = nested_write_ops(g, t, v, r.choice([2, 4]), observe)
+            if ops:
+                out.append(show(['partial', t, v, pos] + ops + [['root']]))
         # appends into a slot whose parent (grandparent) subtree is summarised while it still holds live data
         for _ in range(self.n(tier) // 5):
             if r.random() < 0.5:
